@@ -1,0 +1,33 @@
+//go:build verif
+
+package tcp
+
+import (
+	"net"
+
+	"github.com/DataDog/datadog-traceroute/common"
+	"github.com/DataDog/datadog-traceroute/packets"
+)
+
+// VerifDriver wraps the unexported tcpDriver for the verification harness.
+type VerifDriver struct{ d *tcpDriver }
+
+// VerifNewDriver builds the real TCP SYN driver over the given sink/source with
+// the source endpoint the entry point would have discovered.
+func VerifNewDriver(cfg *TCPv4, srcIP net.IP, srcPort uint16, sink packets.Sink, source packets.Source) *VerifDriver {
+	cfg.srcIP = srcIP
+	cfg.srcPort = srcPort
+	return &VerifDriver{d: newTCPDriver(cfg, sink, source)}
+}
+
+// Driver returns the driver as the engine sees it.
+func (v *VerifDriver) Driver() common.TracerouteDriver { return v.d }
+
+// Base returns the IP-ID base and the fixed sequence number (default mode).
+func (v *VerifDriver) Base() (uint16, uint32) { return v.d.basePacketID, v.d.seqNum }
+
+// SetBase overrides the IP-ID base and the fixed sequence number (default mode).
+func (v *VerifDriver) SetBase(id uint16, seq uint32) { v.d.basePacketID, v.d.seqNum = id, seq }
+
+// VerifReserveLocalPort exposes reserveLocalPort.
+func VerifReserveLocalPort() (uint16, net.Listener, error) { return reserveLocalPort() }
